@@ -1,1 +1,15 @@
 import Reamber.Props.C12
+#print axioms Reamber.Stack.tables_tie
+#print axioms Reamber.Stack.stack_coupled
+#print axioms Reamber.Stack.assign_write_through
+#print axioms Reamber.Stack.assign_keeps_coupled
+#print axioms Reamber.Stack.update_renumbers_labels
+#print axioms Reamber.Stack.step_sim
+#print axioms Reamber.Stack.write_through
+#print axioms Reamber.Stack.fresh_of_freshTrace
+#print axioms Reamber.Stack.spec_frame
+#print axioms Reamber.Stack.spec_other_columns
+#print axioms Reamber.Stack.spec_nonmember
+#print axioms Reamber.Stack.stale_stacker_counterexample
+#print axioms Reamber.Stack.mapset_chart_assign
+#print axioms Reamber.Stack.mapset_broadcast
